@@ -27,6 +27,11 @@ BODIES = {
     "free": [("ifmax", None, "zero", ["route"]), ("free",)],
     "free-only": [("free",)],
     "nested": [("ifmax", None, "zero", ["route"]), ("nested", [("ifmax", None, "zero", ["route"])])],
+    "nested-caught": [("ifmax", None, "zero", ["route"]), ("nested-caught",), ("ifmax", "z", "zero", ["route"])],
+    "nested-caught-first": [("nested-caught",), ("ifmax", None, "scalar", ["route", "route"])],
+    "nonroute-falsy-first": [("ifmax", None, "zero", ["nonroute0", "route"])],
+    "nonroute-falsy-named": [("ifmax", "n", "zero", ["nonroute0", "route"])],
+    "nonroute-empty-list": [("ifmax", None, "scalar", ["nonroute[]", "route"])],
     "badcond": [("ifmax", None, "nonscalar", ["route", "route"])],
     "badcond-after": [("ifmax", "k", "zero", ["route"]), ("ifmax", None, "nonscalar", ["route"])],
     "nonroute": [("ifmax", None, "zero", ["route", "nonroute"])],
@@ -43,12 +48,14 @@ def coq_body(body):
             _, name, cond, effs = s
             nm = "None" if name is None else f"(Some {c.s(name)})"
             cd = {"zero": "CZero", "scalar": "CScalar", "nonscalar": "CNonScalar"}[cond]
-            ef = c.lst([{"route": "ERoute", "nonroute": "ENonRoute", "failfixed": "EFailingFixed"}[e] for e in effs])
+            ef = c.lst([{"route": "ERoute", "nonroute": "ENonRoute", "nonroute0": "ENonRoute", "nonroute[]": "ENonRoute", "failfixed": "EFailingFixed"}[e] for e in effs])
             out.append(f"(SIfmax {nm} {cd} {ef})")
         elif s[0] == "free":
             out.append("SFree")
         elif s[0] == "raise":
             out.append("SRaise")
+        elif s[0] == "nested-caught":
+            out.append("SNestedCaught")
         else:
             out.append(f"(SNested {coq_body(s[1])})")
     return c.lst(out)
@@ -104,6 +111,10 @@ def run(rep, tier, rng):
                                 args.append(s1 >> s2)
                             elif e == "failfixed":
                                 args.append(0.5 >> s3)
+                            elif e == "nonroute0":
+                                args.append(0)          # a falsy value that is not a routing statement
+                            elif e == "nonroute[]":
+                                args.append([])
                             else:
                                 args.append(s1 * s2)
                                 before = nconn()   # not a routing statement
@@ -121,6 +132,12 @@ def run(rep, tier, rng):
                             inside_flag[0] = True
                     elif st[0] == "raise":
                         raise Boom()
+                    elif st[0] == "nested-caught":
+                        try:
+                            with ActionSelection():
+                                pass
+                        except SpaActionSelectionError:
+                            pass
                     else:
                         with ActionSelection() as inner:
                             do_body(st[1], inner)
